@@ -2,7 +2,7 @@
 # usage: tools/seedrun.sh <PID> [extra_check_ids,comma]  — evaluates /tmp/seed-<PID>-out/{1,2,3} (demo_dir from notes.md line 1)
 P=$1; X=${2:-}
 items=()
-for n in 1 2 3 4 5; do
+for n in ${SEED_NS:-1 2 3 4 5 6 7 8 9}; do
   d=/tmp/seed-$P-out/$n
   [ -f $d/patch.diff ] || continue
   dd=$(head -1 $d/notes.md | sed -n 's/^demo_dir:[ ]*//p' | tr -d '` ' | sed 's|^\./||; s|/$||')
